@@ -661,6 +661,7 @@ Fixpoint eval_expr (env : genv) (e : expr) : option value :=
       | _, _ => None
       end
   | EArr l => option_map VArr (eval_list env l)  (* [e1 e2 …] *)
+  | EMap kvs _ => option_map VMap (eval_pairs env kvs)  (* {k1:e1 k2:e2 …}: the pairs in source order *)
   | _ => None
   end
 with eval_list (env : genv) (l : elist) : option (list value) :=
@@ -670,6 +671,14 @@ with eval_list (env : genv) (l : elist) : option (list value) :=
                  | Some v, Some vs => Some (v :: vs)
                  | _, _ => None
                  end
+  end
+with eval_pairs (env : genv) (l : eplist) : option (list (list N * value)) :=
+  match l with
+  | PNil => Some []
+  | PCons k e t => match eval_expr env e, eval_pairs env t with
+                   | Some v, Some m => Some ((utf8_encode k, v) :: m)
+                   | _, _ => None
+                   end
   end.
 
 (* the most stack slots the code of e needs above its starting height *)
@@ -678,12 +687,18 @@ Fixpoint edepth (e : expr) : N :=
   | EGroup e1 | EUn _ e1 => edepth e1
   | EBin _ _ _ l r | EIndex l r => N.max (edepth l) (1 + edepth r)
   | EArr l => N.max 1 (edepth_list l)
+  | EMap kvs _ => N.max 1 (edepth_pairs kvs)
   | _ => 1
   end
 with edepth_list (l : elist) : N :=
   match l with
   | ENil => 0
   | ECons e t => N.max (edepth e) (1 + edepth_list t)
+  end
+with edepth_pairs (l : eplist) : N :=
+  match l with
+  | PNil => 0
+  | PCons _ e t => N.max (1 + edepth e) (2 + edepth_pairs t)   (* the key, then the value above it *)
   end.
 
 (* n loop iterations of Run *)
